@@ -806,7 +806,20 @@ func (x *Exec) callbackCall(fr *Frame, st *State, c *ssa.CallCommon, fv *FuncV, 
 }
 
 func matchTarget(pattern, tgt string) bool {
-	return pattern == tgt || strings.HasSuffix(tgt, "."+pattern) || strings.HasSuffix(tgt, pattern)
+	if pattern == tgt || strings.HasSuffix(tgt, "."+pattern) {
+		return true
+	}
+	// a suffix match must start at a name boundary ("pkg.(*T).M" matches "(*T).M", never "xM")
+	if strings.HasSuffix(tgt, pattern) && len(tgt) > len(pattern) {
+		switch tgt[len(tgt)-len(pattern)-1] {
+		case '.', ')', '$', '/':
+			return true
+		}
+		if strings.HasPrefix(pattern, "(") {
+			return true
+		}
+	}
+	return false
 }
 
 // describeFuncSource gives a stable description of where a function value came from, e.g. "config.FinishedFunc".
